@@ -256,6 +256,9 @@ def bandlimited_rms(r, psd, wllow=None, wlhigh=None, flow=None, fhigh=None):
         c2 = tuple(c2)
         pt1 = r[c]
         pt2 = r[c2]
+        # the frequency spacing along the second axis: 1/(N dx) differs per axis for non-square data
+        c3 = (c[0], c[1] - 1)
+        pt3 = r[c3]
     else:
         c = r.shape[0]//2
         pt1 = r[c]
@@ -270,7 +273,7 @@ def bandlimited_rms(r, psd, wllow=None, wlhigh=None, flow=None, fhigh=None):
     reduced = trapz(work, dx=dx, axis=0)
 
     if r.ndim == 2:
-        reduced = trapz(reduced, dx=dx, axis=0)
+        reduced = trapz(reduced, dx=abs(pt3 - pt1), axis=0)
 
     return np.sqrt(reduced)
 
